@@ -13,7 +13,7 @@
    None = IndexError. *)
 From Coq Require Import ZArith List Bool.
 From PTK Require Import Lib.Sx Lib.Py Model.C15_Async Proofs.C15_Base Proofs.C15_User
-  Proofs.C15_Sched Proofs.C15_Cfg Proofs.C15_Theorems.
+  Proofs.C15_Sched Proofs.C15_Cfg Proofs.C15_Theorems Proofs.C15_Rebase.
 Import ListNotations.
 Open Scope Z_scope.
 
@@ -59,6 +59,20 @@ Theorem C15_completions_fresh : forall c t p ls,
     (cs_idx cs = None -> cs_orig cs = cur_doc (reach c t p ls)).
 Proof. exact (fun c => completions_fresh (current c)). Qed.
 Print Assumptions C15_completions_fresh.
+
+(* insert_common_part: every entry of the re-based menu
+   (Completion.new_completion_from_position, applied to the document with the
+   common part typed in) produces exactly the text and cursor that the
+   completer's completion produced on the document it was computed from.
+   [common_suffix] is get_common_complete_suffix (with _commonprefix = common
+   prefix of the min and the max suffix); [apply_comp] is what
+   new_text_and_position does with one completion. *)
+Theorem C15_rebase_same_result : forall d l common c,
+  0 <= dcur d <= len (dtext d) ->
+  common_suffix d l = common -> common <> [] -> In c l -> cstart c <= 0 ->
+  apply_comp (doc_insert d common) (new_from_pos (len common) c) = apply_comp d c.
+Proof. exact rebase_same_result. Qed.
+Print Assumptions C15_rebase_same_result.
 
 (* A published verdict was computed from a document with the current text. *)
 Theorem C15_verdict_fresh : forall c t p ls,
@@ -173,6 +187,16 @@ Example C15_reachable :
   text s = [97; 98; 100] /\ length (ccos s) = 1%nat /\
   exists cs, cst s = Some cs /\ cs_idx cs = Some 1 /\ len (cs_comps cs) = 2.
 Proof. vm_compute. split; [reflexivity|]. split; [reflexivity|]. eexists. repeat split. Qed.
+
+(* the synchronous validate() of the Enter key racing with the asynchronous
+   validator: the ValidationError moves the cursor, the late answer of the
+   validator in flight is dropped (its document is no longer the buffer's) *)
+Example C15_sync_validate_race :
+  let s := reach (mkcfg false true false 10000 true) [97; 98] 2
+             [Insert [99]; Tick; Validate false 1 true; VReturn 0 true] in
+  vst s = 2 /\ cur s = 1 /\ vcos s = [] /\ vrun s = false /\
+  exists d, vsrc s = Some d /\ dtext d = text s.
+Proof. vm_compute. repeat split. eexists. split; reflexivity. Qed.
 
 Example C15_former_witness_now_fine :
   let s := reach w_cfg [97; 98] 2 w_labels in
